@@ -69,7 +69,7 @@ CLAIMS = {
         "classified progress argument (TERM1): exit by a std iterator's None; `while size < B` whose body increases size by "
         "one on every path under the loop's facts (callee paths projected); a counter moved towards its bound by an entailed "
         "step >= 1 — the back-fill step of Drain::drop is value-level and listed as undecided; an exit test over operands "
-        "the body never changes is reported. Not decided: single-element bounds checks (counted; infeasible under INV). In the debug build (thorough tier) the three stated beliefs of Drain::read and the saved-size assertions of the drain views are now *proved* from their callers (std Range::next / next_back modelled as axioms: next hands out the old start and advances it, next_back retreats the end and hands out the new end, both only while start < end; a panic block shared by several failing tests is judged edge by edge), so a change of one of them is reported (DBGASSERT1). An assertion whose condition is stated over something the guard reasoning cannot read (a promoted constant range such as `(0..N).contains(..)`) is listed as undecided, never reported; Range::contains / RangeInclusive::contains over resolvable operands, and min as a lower bound, are modelled.",
+        "the body never changes is reported. Not decided: single-element bounds checks (counted; infeasible under INV). In the debug build (thorough tier) the three stated beliefs of Drain::read and the saved-size assertions of the drain views are now *proved* from their callers (std Range::next / next_back modelled as axioms: next hands out the old start and advances it, next_back retreats the end and hands out the new end, both only while start < end; a panic block shared by several failing tests is judged edge by edge), so a change of one of them is reported (DBGASSERT1). An assertion whose condition is stated over something the guard reasoning cannot read (a promoted constant range such as `(0..N).contains(..)`) is listed as undecided, never reported; Range::contains / RangeInclusive::contains over resolvable operands, and min as a lower bound, are modelled. FWD1 (the forwarding PartialEq impls end in the base slice impl and cannot recurse into themselves through std's `&A == &B`: they terminate) and TWIN of the range/iterator helpers (range() returns or panics exactly where range_mut() does). PAN4 also accepts translate_range_bounds' contract as a postcondition (a normal return entails start <= end <= len) however the checks are spelled. Promoted constants (`&(0..N)`, a `&N` pattern binding) are resolved from their promoted MIR bodies, which the driver now records.",
         note="Assumes INV (checked by INV1 under C04) and core's RangeBounds impls; single-element bounds checks are "
         "not judged; SUB1/RIDX1 report only obligations over transparent operands.",
         ref="DESIGN.md §5 C11",
@@ -117,7 +117,7 @@ CLAIMS = {
         "(REINT1); the header is shrunk before drop_range runs destructors and not written afterwards (PS1); the observers "
         "(eq/ord/hash/Debug) read the contents only through len/as_slices/iter and feed std's algorithms element by element "
         "(OBS1/ORD1/HASH1/DBG1), and the positional accessors answer from the logical position only (NONE1/DERIV1) — the "
-        "'equal contents are indistinguishable' clause. Also: a physical slot position add_mod(start,i,N) used to index/offset/swap storage needs i<size (ACC2b); index-kind inference: physical positions and logical indices/lengths are never compared nor substituted for each other, and the backing array is sliced only by physical positions (KIND1); DRNVIEW1; BACKFILL2 (the back-fill of Drain::drop copies exactly the live tail [range.end, buf_size) onto the hole and restores size = range.start + moved, as linear-form equalities) and DRN1 a-c,f (the header claims nothing while a Drain, which may be leaked, exists); REMOVE2 (remove's copies close exactly the gap: a chain start+index+1 -> start+size modulo N shifting by one). Not decided: bounds arithmetic inside the slice views; two-run non-interference. DRN1 g (the Drain invariant is established at construction) and the empty-answer clause of VIEW2 (a view is (empty, empty) only where N == 0 or its logical length is zero, judged per incoming path).",
+        "'equal contents are indistinguishable' clause. Also: a physical slot position add_mod(start,i,N) used to index/offset/swap storage needs i<size (ACC2b); index-kind inference: physical positions and logical indices/lengths are never compared nor substituted for each other, and the backing array is sliced only by physical positions (KIND1); DRNVIEW1; BACKFILL2 (the back-fill of Drain::drop copies exactly the live tail [range.end, buf_size) onto the hole and restores size = range.start + moved, as linear-form equalities) and DRN1 a-c,f (the header claims nothing while a Drain, which may be leaked, exists); REMOVE2 (remove's copies close exactly the gap: a chain start+index+1 -> start+size modulo N shifting by one). Not decided: bounds arithmetic inside the slice views; two-run non-interference. DRN1 g (the Drain invariant is established at construction) and the empty-answer clause of VIEW2 (a view is (empty, empty) only where N == 0 or its logical length is zero, judged per incoming path). ITERAGG1 and the TWIN agreement of the shared/mutable range and iterator helpers: what range()/iter() and their clones show is assembled from both halves of one view, by one algorithm — independent of layout and history.",
         note="One INV1 store (extend_from_slice size + other.len()) is listed as an assumption, not decided. Drain::read "
         "is a named exception (unsafe fn with a value-level contract).",
         ref="DESIGN.md §5 C04",
